@@ -62,6 +62,21 @@ P = {
         note="Storage service and transport are a scripted fake; induction is over the page list.",
         tech="Coq proof by induction over the page list (StronglySorted listing) + scripted-service differential correspondence",
         ref="DESIGN.md section 5 C19"),
+    "C06": dict(
+        text="Unbounded theorems over Q: for every level in (0,1) and every B>=2 the quantile ranks satisfy 0<=lower<=upper<=B and are nested by level; the source's _get_quantiles formula (re-translated each run) equals the model for all arguments; linear-interpolation quantiles are monotone on sorted draws, hence unit lower<=upper and nesting for every draw matrix; aggregate bounds straddle the prediction strictly and are nested; clipping and the turnout-weighted average keep margins in [-1,1]. Correspondence: rank grid, injected draw matrices (exact quantile model), API runs.",
+        note="Draw matrices are oracle inputs; the interior of compute_bootstrap_errors is not modelled (its clipping steps are, as hypotheses of C06_margin_range).",
+        tech="Coq proof over Q (floor/ceil arithmetic, piecewise-linear quantile monotonicity) + grid/injection/API correspondence",
+        ref="DESIGN.md section 5 C06"),
+    "C07": dict(
+        text="Theorems for every prediction and every pair of bounds: called left -> prediction >= +0.005 and (unless stop-listed) lower >= 0; called right symmetric; stop-listed and not called -> interval contains 0; neither -> unchanged; the call lists are rejected iff a contest is named for both parties or is not modelled. Correspondence: the complete abstraction table (750 cells covering the 162 sign cells) on a real model object at two levels every run, generated call lists, API runs on state and district contests.",
+        note="Draw matrices are oracle inputs (injected).",
+        tech="Coq proof by case analysis over the four np.where steps + exhaustive table enumeration + differential correspondence",
+        ref="DESIGN.md section 5 C07"),
+    "C08": dict(
+        text="Theorems in both correlation modes, for every level, every draw matrix and every column the argsort may pick: lower <= prediction <= upper, within [base, base+total weight], prediction = base + weights of contests with positive margin, called contests neutral, wrong-size weights rejected; state-machine theorem: the summary reads the contests of the latest top-level aggregate computation whatever finer aggregates were computed around it. Correspondence: injected margins incl. the opposite-side shape, all op histories over {top, county, classification}, API runs with permuted aggregate lists.",
+        note="Draw matrices are oracle inputs; argsort tie-breaking in the uncorrelated mode is not modelled (theorems hold for every choice).",
+        tech="Coq proof (sum bounds over contests, fold invariant over op histories) + injection / history correspondence",
+        ref="DESIGN.md section 5 C08"),
 }
 
 REASON_NOT_BUILT = "check not built yet in this development stage (planned: see DESIGN.md section 5)"
